@@ -467,5 +467,85 @@ fn main() {
             }
         }
     }
+    // =========================== audit corner inputs (Props/C04.v (8), (9)) ====================
+    // window 0 and series of UNEQUAL length through every two-series entry point: the index body (Vec, caller
+    // buffer) asserts `other.len() >= len` first and then the window; the iterator body (VecDeque returned)
+    // asserts the window on the first series only and evaluates the common prefix.
+    {
+        let vals_a = [1.5, -2.0, f64::NAN, 4.25, 0.5, -3.0];
+        let vals_b = [0.25, 3.0, -1.0, f64::NAN, 2.0, 7.5];
+        let lens: [(usize, usize); 9] = [(0, 0), (0, 2), (1, 0), (2, 1), (1, 3), (3, 2), (2, 4), (3, 3), (4, 6)];
+        for (la, lb) in lens.iter().cloned() {
+            let a: Vec<f64> = vals_a[..la].to_vec();
+            let b: Vec<f64> = vals_b[..lb].to_vec();
+            let (a_coq, b_coq) = (coq_fs(&a), coq_fs(&b));
+            let (ao, bo) = (to_opt(&a), to_opt(&b));
+            let (ao_coq, bo_coq) = (coq_os(&ao), coq_os(&bo));
+            let rel = if lb < la { "second_shorter" } else if lb > la { "second_longer" } else { "equal" };
+            for w in 0..=3usize {
+                for mp in [None, Some(0usize), Some(1)] {
+                    let mp_coq = coq_opt(&mp, |m| coq_nat(*m));
+                    for (fi, fname) in FN2.iter().enumerate() {
+                        let fi_ = fi as i32;
+                        let cmp = "custom:sing:1e-7,64".to_string();
+                        let tags = |ty: &str, be: &str| format!(
+                            "fn={} ty={} be={} len={} wrel={} mp={} lens={} style=corner{}",
+                            fname, ty, be, la, if w == 0 { "zero" } else { wrel(w, la) }, mp_tag(w.max(1), mp), rel,
+                            if la == 0 { " nt=0" } else { "" });
+                        let desc = |ty: &str, be: &str| format!("fn={} ty={} be={} w={} mp={:?} a={:?} b={:?}", fname, ty, be, w, mp, a, b);
+                        let term = |suffix: &str, body: bool, x: &str, y: &str| format!(
+                            "(run_two_{} {} {} {} {} {} {})", suffix, fi, coq_bool(body), coq_nat(w), mp_coq, x, y);
+                        if fi == 4 {
+                            em.case(&cmp, &tags("f64", "vec"), &desc("f64", "vec"), || term("ff", true, &a_coq, &b_coq),
+                                || out_cells3(guarded(|| { let r: Vec<(f64, f64, f64)> = a.ts_vregx_all(&b, w, mp); r })));
+                            em.case(&cmp, &tags("f64", "deque"), &desc("f64", "deque"), || term("ff", false, &a_coq, &b_coq),
+                                || { let (da, db): (VecDeque<f64>, VecDeque<f64>) = (a.iter().cloned().collect(), b.iter().cloned().collect());
+                                     out_cells3(guarded(|| { let r: Vec<(f64, f64, f64)> = da.ts_vregx_all(&db, w, mp); r })) });
+                            continue;
+                        }
+                        em.case(&cmp, &tags("f64", "vec"), &desc("f64", "vec"), || term("ff", true, &a_coq, &b_coq),
+                            || out_cells(guarded(|| call2!(fi_, a, &b, w, mp, Vec<f64>))));
+                        em.case(&cmp, &tags("f64", "deque"), &desc("f64", "deque"), || term("ff", false, &a_coq, &b_coq),
+                            || { let (da, db): (VecDeque<f64>, VecDeque<f64>) = (a.iter().cloned().collect(), b.iter().cloned().collect());
+                                 out_cells(guarded(|| call2!(fi_, da, &db, w, mp, Vec<f64>))) });
+                        em.case(&cmp, &tags("f64", "vec_to"), &desc("f64", "vec_to"), || term("ff", true, &a_coq, &b_coq),
+                            || out_cells(guarded(|| call2_to!(fi_, a, &b, w, mp))));
+                        em.case(&cmp, &tags("f64", "deque_to"), &desc("f64", "deque_to"), || term("ff", true, &a_coq, &b_coq),
+                            || { let (da, db): (VecDeque<f64>, VecDeque<f64>) = (a.iter().cloned().collect(), b.iter().cloned().collect());
+                                 out_cells(guarded(|| call2_to!(fi_, da, &db, w, mp))) });
+                        em.case(&cmp, &tags("optf64", "vec"), &desc("optf64", "vec"), || term("oo", true, &ao_coq, &bo_coq),
+                            || out_cells_opt(guarded(|| call2!(fi_, ao, &bo, w, mp, Vec<Option<f64>>))));
+                        em.case(&cmp, &tags("optf64_x_f64", "deque"), &desc("optf64_x_f64", "deque"), || term("of", false, &ao_coq, &b_coq),
+                            || { let da: VecDeque<Option<f64>> = vh::wrapped_deque(&ao);
+                                 out_cells(guarded(|| call2!(fi_, da, &b, w, mp, Vec<f64>))) });
+                    }
+                }
+            }
+        }
+        // the one-series family with window 0
+        for la in 0..=2usize {
+            let xs: Vec<f64> = vals_a[..la].to_vec();
+            let xs_coq = coq_fs(&xs);
+            for mp in [None, Some(0usize)] {
+                let mp_coq = coq_opt(&mp, |m| coq_nat(*m));
+                for (k, fname) in FN1.iter().enumerate() {
+                    let fi = 8 + k;
+                    let fi_ = fi as i32;
+                    let cmp = "custom:sing:1e-7,64".to_string();
+                    let tags = |be: &str| format!("fn={} ty=f64 be={} len={} wrel=zero mp={} style=corner{}",
+                        fname, be, la, mp_tag(1, mp), if la == 0 { " nt=0" } else { "" });
+                    let desc = |be: &str| format!("fn={} ty=f64 be={} w=0 mp={:?} xs={:?}", fname, be, mp, xs);
+                    let term = |body: bool| format!("(run_trend_f {} {} {} {} {})", fi, coq_bool(body), coq_nat(0), mp_coq, xs_coq);
+                    em.case(&cmp, &tags("vec"), &desc("vec"), || term(true),
+                        || out_cells(guarded(|| call1!(fi_, xs, 0, mp, Vec<f64>))));
+                    em.case(&cmp, &tags("deque"), &desc("deque"), || term(false),
+                        || { let d: VecDeque<f64> = vh::wrapped_deque(&xs);
+                             out_cells(guarded(|| call1!(fi_, d, 0, mp, Vec<f64>))) });
+                    em.case(&cmp, &tags("vec_to"), &desc("vec_to"), || term(true),
+                        || out_cells(guarded(|| call1_to!(fi_, xs, 0, mp))));
+                }
+            }
+        }
+    }
     em.finish();
 }
